@@ -183,6 +183,13 @@ def run(rep, build, tier, seed):
     # pp_ignore_define_body): the line break behind the backslash is looked for inside the body scanner
     ppc = (b"#pragma omp parallel for \\\n    schedule(static)\nvoid f(void)\n{\n#pragma unroll \\\n  4\n\tint a;\n}\n#warning first \\\n  second\n"
            b"#define M(a) \\\n  do { a; } \\\n  while (0)\n#region r \\\n  x\n#endregion\nint y;\n")
+    # block comments whose second line is nothing but lead characters directly followed by the line break: calculate_comment_body_indent() scans that
+    # line up to its terminator (round-5 seed: the scan no longer stopped at CR; only one of two random seeds drew such a comment)
+    bare = (b"int a;\n\n/*\n**\n** some text\n** more\n*/\nint b;\n\nvoid f()\n{\n   /*\n   ##\n   ## in a body\n   */\n   int c;\n   /*\n    *\n    * one star\n    */\n"
+            b"   int d; /* trailing\n             **\n             ** two */\n}\n/**\n***\n*** three\n***/\nint e;\n/*\n||\n|| bars\n*/\nint g;\n")
+    base_cases.insert(0, rc.Case("cmt-bare-leader", "C", "indent_columns=4\n", bare))
+    base_cases.insert(1, rc.Case("cmt-bare-leader-noindent", "C", "indent_columns=3\ncmt_indent_multi=false\n", bare))
+    base_cases.insert(2, rc.Case("cmt-bare-leader-star", "CPP", "indent_columns=2\ncmt_star_cont=true\n", bare))
     base_cases.insert(0, rc.Case("pp-body-cont", "C", "indent_columns=4\n", ppc))
     base_cases.insert(1, rc.Case("pp-body-cont-ignore", "C", "indent_columns=4\npp_ignore_define_body=true\n", ppc))
     # block comments in every lead-character style: the comment writers look at the characters behind the first line break
